@@ -34,7 +34,8 @@
      Message v1         => crc:UINT32 magic:INT8(=1) attributes:INT8 timestamp:INT64 key:NULLABLE_BYTES value:NULLABLE_BYTES
        crc = CRC-32 of the message bytes after the crc field; attributes bits 0..2 = compression codec
        (0 none, 1 gzip, 2 snappy, 3 lz4); a compressed message's value is a compressed MessageSet whose messages
-       are themselves uncompressed (the guide: no recursive compression).
+       are themselves uncompressed (the guide: no recursive compression) and of the SAME format as the wrapper
+       (brokers reject a batch whose inner message magic does not match the wrapper magic).
 
    STRICTNESS.  A request parses only if every byte is accounted for: the request is consumed exactly, every
    message fills exactly its message_size, every message set fills exactly record_set_size, every CRC matches,
@@ -137,9 +138,11 @@ Fixpoint sp_message_set {X} (one : Z -> list Z -> option X) (fuel : nat) (d : li
       end
   end.
 
-Definition sp_inner (offset : Z) (mb : list Z) : option pmsg :=
+(* inside a wrapper of format [wmagic]: no recursive compression, and the same format as the wrapper (a broker
+   rejects the batch otherwise: "inner message magic does not match wrapper magic") *)
+Definition sp_inner (wmagic : Z) (offset : Z) (mb : list Z) : option pmsg :=
   match sp_message offset mb with
-  | Some m => if (codec_of (p_attr m) =? 0) then Some m else None      (* no recursive compression *)
+  | Some m => if (codec_of (p_attr m) =? 0) && (p_magic m =? wmagic) then Some m else None
   | None => None
   end.
 
@@ -156,7 +159,7 @@ Definition sp_outer (orc : oracle) (offset : Z) (mb : list Z) : option smsg :=
       else match p_value m with
            | None => None
            | Some v => match decompress orc (codec_of (p_attr m)) v with
-                       | Some b => match sp_message_set sp_inner (length b) b with
+                       | Some b => match sp_message_set (sp_inner (p_magic m)) (length b) b with
                                    | Some inner => Some (SWrap m inner)
                                    | None => None
                                    end
